@@ -270,15 +270,26 @@ def verifyObject (W : World) (v : Variant) (P : Policy) (path : String) (g : Opt
 
 def sigOf (k : Option KeyId) : Option Sig := k.map (fun k => { key := k, over := 1, hint := none })
 
+def commitSigner (W : World) (c : Nat) : Option KeyId :=
+  match W.commits[c]? with | some cs => cs.signer | none => none
+
+/-- the per-path loop for one commit (verify.go:896-907): every changed path is checked against the
+file rules; `used` is the verifier that already accepted this commit (trusted-verifier shortcut) -/
+def verifyPaths (W : World) (v : Variant) (P : Policy) (ap : Approvals) (g : Option Sig) :
+    List String → String → Except VE Unit
+  | [], _ => .ok ()
+  | path :: rest, used =>
+    match W.verifyObject v P ("file:" ++ path) g none ap { trusted := used } with
+    | .error _ => .error .verif
+    | .ok (u, _) => verifyPaths W v P ap g rest u
+
 /-- file-rule verification of the commits introduced by a change (verify.go:882-908) -/
-def verifyFiles (W : World) (v : Variant) (P : Policy) (ap : Approvals) (commits : List Nat) : Except VE Unit :=
-  commits.forM (fun c => do
-    let signer := match W.commits[c]? with | some cs => cs.signer | none => none
-    let _ ← (W.changedPaths c).foldlM (init := "") (fun usedV path => do
-      match W.verifyObject v P ("file:" ++ path) (sigOf signer) none ap { trusted := usedV } with
-      | .error _ => (.error .verif : Except VE String)
-      | .ok (u, _) => pure u)
-    pure ())
+def verifyFiles (W : World) (v : Variant) (P : Policy) (ap : Approvals) : List Nat → Except VE Unit
+  | [] => .ok ()
+  | c :: cs =>
+    match W.verifyPaths v P ap (sigOf (W.commitSigner c)) (W.changedPaths c) "" with
+    | .error e => .error e
+    | .ok () => verifyFiles W v P ap cs
 
 /-- `verifyEntry` (verify.go:853-911), branch references only (tags are not modelled). -/
 def verifyEntry (W : World) (v : Variant) (P : Policy) (A : Option AttState) (i : Nat) (e : LogEntry) :
